@@ -918,6 +918,81 @@ func ruleR154(c *Ctx) {
 		}
 		return true
 	})
+	// second mechanism: a table lookup in front of the matchers
+	//   if exp := slices.Index(table, n); exp >= 0 { tokens <- ^; tokens <- strconv.Itoa(exp); break }
+	ast.Inspect(ta.run.Body, func(x ast.Node) bool {
+		ifs, ok := x.(*ast.IfStmt)
+		if !ok {
+			return true
+		}
+		as, ok := ifs.Init.(*ast.AssignStmt)
+		if !ok || len(as.Lhs) != 1 || len(as.Rhs) != 1 {
+			return true
+		}
+		call, ok := ast.Unparen(as.Rhs[0]).(*ast.CallExpr)
+		if !ok || len(call.Args) != 2 {
+			return true
+		}
+		cal := Callee(info, call)
+		if cal == nil || cal.Pkg() == nil || !(cal.Pkg().Path() == "slices" && cal.Name() == "Index" || cal.Pkg().Path() == "strings" && cal.Name() == "IndexRune") {
+			return true
+		}
+		tbl, ok := constEval(info, call.Args[0], nil)
+		if !ok || tbl.Kind() != constant.String {
+			return true
+		}
+		be, ok := ast.Unparen(ifs.Cond).(*ast.BinaryExpr)
+		idxId, ok2 := as.Lhs[0].(*ast.Ident)
+		runeId, ok3 := ast.Unparen(call.Args[1]).(*ast.Ident)
+		if !ok || !ok2 || !ok3 {
+			return true
+		}
+		if id, ok := ast.Unparen(be.X).(*ast.Ident); !ok || info.ObjectOf(id) != info.ObjectOf(idxId) {
+			return true
+		}
+		bound, ok := constInt(info.Types[be.Y])
+		if !ok {
+			return true
+		}
+		byteIdx := cal.Pkg().Path() == "strings"
+		pos := 0
+		for i, r := range []rune(constant.StringVal(tbl)) {
+			idx := i
+			if byteIdx {
+				idx = pos
+			}
+			pos += len(string(r))
+			in := false
+			switch be.Op {
+			case token.GEQ:
+				in = idx >= bound
+			case token.GTR:
+				in = idx > bound
+			case token.NEQ:
+				in = idx != bound
+			}
+			if !in || !strings.ContainsRune(supers, r) {
+				continue
+			}
+			seen[r] = true
+			digit := 0
+			for j, sr := range []rune(supers) {
+				if sr == r {
+					digit = j
+				}
+			}
+			bind := map[types.Object]constant.Value{info.ObjectOf(idxId): constant.MakeInt64(int64(idx)), info.ObjectOf(runeId): constant.MakeInt64(int64(r))}
+			typs, images, resolved := emittedTokens(c, root, info, ifs.Body, bind, 0)
+			if !resolved {
+				unresolved = true
+				continue
+			}
+			if len(images) != 2 || images[0] != "^" || images[1] != fmt.Sprint(digit) || len(typs) != 2 || typs[0] != "tOperate" || typs[1] != "tNumber" {
+				problems = append(problems, fmt.Sprintf("%c emits %v %v instead of the operator ^ and the number %d", r, typs, images, digit))
+			}
+		}
+		return true
+	})
 	if len(seen) == 0 || unresolved {
 		c.Undecided(key, ta.run.Pos(), "the superscript digits are not handled by switch cases that emit constant tokens (directly or through a helper): mechanism not recognised")
 		goto exclusion
@@ -958,10 +1033,10 @@ exclusion:
 				if !ok {
 					return true
 				}
-				if cal := Callee(info, call); cal != nil && cal.Pkg() != nil && cal.Pkg().Path() == "strings" && cal.Name() == "ContainsRune" {
-					if tv := info.Types[call.Args[0]]; tv.Value != nil && tv.Value.Kind() == constant.String {
+				if cal := Callee(info, call); cal != nil && cal.Pkg() != nil && (cal.Pkg().Path() == "strings" && cal.Name() == "ContainsRune" || cal.Pkg().Path() == "slices" && cal.Name() == "Contains") && len(call.Args) == 2 {
+					if tv, ok := constEval(info, call.Args[0], nil); ok && tv.Kind() == constant.String {
 						nStr++
-						s := constant.StringVal(tv.Value)
+						s := constant.StringVal(tv)
 						a, b := []rune(s), []rune(supers)
 						sort.Slice(a, func(i, j int) bool { return a[i] < a[j] })
 						sort.Slice(b, func(i, j int) bool { return b[i] < b[j] })
@@ -1645,5 +1720,95 @@ func ruleR1510(c *Ctx) {
 	}
 	if n < 2 {
 		c.Undecided("parser2#tokenizer-construction", token.NoPos, "only %d construction sites of the tokenizer found", n)
+	}
+}
+
+// ---------------------------------------------------------------------------
+// R15.11 the width of a decoded rune is not dropped
+//
+// The scanner decodes a rune and later advances the input by "the width of
+// that rune". Rune and width come out of one call; if the width is stored into
+// a variable that nothing reads afterwards (a name that happens to be in scope
+// instead of the one the advance uses), the advance works with the width of an
+// earlier rune: a multi byte character leaves its trailing bytes in the input,
+// which come back as invalid tokens or split an identifier.
+
+func ruleR1511(c *Ctx) {
+	root := c.Pkg("")
+	if root == nil {
+		c.Undecided("package parser2", token.NoPos, "not found")
+		return
+	}
+	info := root.TypesInfo
+	n := 0
+	forEachFuncBody([]*packages.Package{root}, func(_ *packages.Package, fn ast.Node, body *ast.BlockStmt) {
+		k := 0
+		inspectNoLit(body, func(x ast.Node) bool {
+			as, ok := x.(*ast.AssignStmt)
+			if !ok || len(as.Lhs) != 2 || len(as.Rhs) != 1 {
+				return true
+			}
+			call, ok := ast.Unparen(as.Rhs[0]).(*ast.CallExpr)
+			if !ok || !isDecodeRune(info, call) {
+				return true
+			}
+			id, ok := ast.Unparen(as.Lhs[1]).(*ast.Ident)
+			if !ok || id.Name == "_" {
+				return true
+			}
+			obj := info.ObjectOf(id)
+			k++
+			n++
+			key := fmt.Sprintf("%s#decode-width[%d]:%s", c.FuncName(fn)+litSuffix(c, fn), k, id.Name)
+			g := c.CFG(fn)
+			if g == nil {
+				c.Undecided(key, as.Pos(), "no flow graph")
+				return true
+			}
+			reads := func(nd ast.Node) bool {
+				found := false
+				var lhsOnly map[*ast.Ident]bool
+				if a2, ok := nd.(*ast.AssignStmt); ok && (a2.Tok == token.ASSIGN || a2.Tok == token.DEFINE) {
+					lhsOnly = map[*ast.Ident]bool{}
+					for _, l := range a2.Lhs {
+						if li, ok := ast.Unparen(l).(*ast.Ident); ok {
+							lhsOnly[li] = true
+						}
+					}
+				}
+				ast.Inspect(nd, func(y ast.Node) bool {
+					if _, isLit := y.(*ast.FuncLit); isLit {
+						// a literal that mentions the variable may read it whenever it runs
+					}
+					if yi, ok := y.(*ast.Ident); ok && info.ObjectOf(yi) == obj && !lhsOnly[yi] {
+						found = true
+					}
+					return !found
+				})
+				return found
+			}
+			writes := func(nd ast.Node) bool {
+				a2, ok := nd.(*ast.AssignStmt)
+				if !ok {
+					return false
+				}
+				for _, l := range a2.Lhs {
+					if li, ok := ast.Unparen(l).(*ast.Ident); ok && info.ObjectOf(li) == obj {
+						return true
+					}
+				}
+				return false
+			}
+			live, _ := g.PathAvoiding(as, reads, writes)
+			if live {
+				c.OK(key, as.Pos(), "the width is read on some path before it is overwritten")
+			} else {
+				c.Violation(key, as.Pos(), "the width of the decoded rune is stored into %s, which nothing reads before it is overwritten or goes out of scope: whatever advances the input afterwards uses the width of an earlier rune, so a character of several bytes leaves its trailing bytes in the input (a×b parses, a/*c*/×b does not)", id.Name)
+			}
+			return true
+		})
+	})
+	if n < 3 {
+		c.Undecided("parser2#decode-sites", token.NoPos, "only %d decode sites with a named width found", n)
 	}
 }
